@@ -552,6 +552,7 @@ POOL = [
     (HotRod, {'HotRod_tol': 1e2}, ('HotRod_tol', 1e2), -40),
 ]
 POOLNAMES = [p[0].__name__ for p in POOL]
+CALLBACKS = ('setup_status_variables', 'reset_status_variables', 'reset_buffers_nonMPI', 'pre_iteration_processing', 'post_iteration_processing', 'convergence_control', 'post_spread_processing', 'post_step_processing', 'prepare_next_block', 'prepare_next_block_nonMPI', 'post_run_processing')
 
 
 def cc_case(arg):
@@ -597,13 +598,49 @@ def _cc_case(arg):
             if c.params.control_order != default_order:
                 out.append(({**sig0, 'kind': 'default_changed', 'class': cls.__name__}, {'expected_control_order': default_order, 'observed': c.params.control_order}))
     if not out:
+        # observed call order: every loop of the controller over its convergence controllers (one per callback and step)
+        # visits each of them once; the control orders it meets must not decrease
+        calls = {}
+        n_cc = len(CC)
+
+        def wrap(c, name):
+            orig = getattr(c, name)
+
+            def f(controller, *a, **kw):
+                S = a[0] if a and hasattr(a[0], 'levels') else kw.get('S')
+                import sys as _sys
+
+                fn = _sys._getframe(1).f_code.co_filename.replace('\\', '/')
+                if '/controller_classes/' not in fn and not fn.endswith('core/controller.py'):
+                    return orig(controller, *a, **kw)  # one convergence controller calling its own callback: not a loop of the controller
+                calls.setdefault((name, id(S) if S is not None else None), []).append(c.params.control_order)
+                return orig(controller, *a, **kw)
+
+            return f
+
+        for c in CC:
+            for name in CALLBACKS:
+                if hasattr(c, name):
+                    try:
+                        setattr(c, name, wrap(c, name))
+                    except Exception:  # noqa: BLE001
+                        pass
         try:
             Lv = ctrl.MS[0].levels[0]
-            ctrl.run(Lv.prob.u_exact(0.0), 0.0, P * Lv.params.dt)
+            ctrl.run(Lv.prob.u_exact(0.0), 0.0, 2 * P * Lv.params.dt)
         except ConvergenceError:
             pass  # a numerical outcome of the run (too many restarts), not a statement about how the setup was interpreted
         except Exception as e:  # noqa: BLE001
             out.append(({**sig0, 'kind': 'valid_setup_rejected'}, {'when': 'one-block run', 'error': f'{type(e).__name__}: {e}'[:300]}))
+        for (name, _), seq in sorted(calls.items(), key=lambda kv: kv[0][0]):
+            for i in range(0, len(seq) - n_cc + 1, n_cc):
+                chunk = seq[i : i + n_cc]
+                if sorted(chunk) == sorted(orders) and chunk != sorted(chunk):
+                    out.append(({**sig0, 'kind': 'not_called_in_ascending_control_order', 'callback': name}, {'control_orders_in_call_order': chunk, 'controllers': [t.__name__ for t in types]}))
+                    break
+            else:
+                continue
+            break
     return out
 
 
@@ -676,7 +713,7 @@ def run(rep, tier):
     for arg, out in common.pimap_unordered(cc_case_wrapped, ccases, chunksize=8):
         for sig, det in out:
             cv.append((sig, det, {'part': 'convergence_controllers', 'subset': list(arg[0]), 'reverse': arg[1], 'P': arg[2]}))
-    cv = _min_by(cv, lambda s: common.canon({k: s[k] for k in s if k in ('kind', 'class', 'classes', 'parameter')}))
+    cv = _min_by(cv, lambda s: common.canon({k: s[k] for k in s if k in ('kind', 'class', 'classes', 'parameter', 'callback')}))
 
     # D. transfer entries
     tcases = transfer_cases()
